@@ -26,7 +26,10 @@ RULE = (
 COMPONENTS = dyncommon.COMPONENTS
 ASSUMPTIONS = dyncommon.ASSUMPTIONS + [
     "every interrupt handler starts with a take/wait, so a handler whose condition stays true cannot spin without yielding",
-    "compose blocks use try-interrupt only around waits (abandoning a block with a running sub-scenario is not documented)",
+    "compose blocks use try-interrupt only around waits (abandoning a block with a running sub-scenario is not documented), "
+    "except in the separate family 'compose pre-emption' (1 run in 16): `try: do SubA() interrupt when c: do SubB() / wait`, "
+    "judged by an order check over the event history (statement after the `do` only after SubA's compose block finished) "
+    "instead of the reference interpreter",
 ]
 
 FEAT = dict(
@@ -41,11 +44,122 @@ classify = dyncommon.classify
 
 
 def run(tape):
+    if tape.chance(1, 16, "family.compose_preempt"):
+        return run_compose_preempt(tape)
     return dyncommon.run_dyn(tape, FEAT, BUG_MODELS, raise_guards_choice=True)
 
 
+# ---------------------------------------------------------------------------
+# family "compose pre-emption": a compose block running sub-scenarios with `do` inside
+# try-interrupt (the shape shown in the composition tutorial).  What happens to a
+# pre-empted sub-scenario while the handler runs is not documented in detail, so this
+# family does not use the reference interpreter; its oracle is an order check over the
+# recorded history that holds under every reading of the documentation:
+#   "a pre-empted block later resumes exactly where it stopped"  ==>  the statement after
+#   `do SubA()` runs only after SubA's compose block has finished, and the statement after
+#   the whole try-interrupt only after that.
+# ---------------------------------------------------------------------------
+def _preempt_case(tape):
+    dA = tape.intrange(2, 5, "pre.dA")
+    dB = tape.intrange(1, 3, "pre.dB")
+    handler = tape.choice(["do", "do", "wait", "dofor"], "pre.handler")
+    agents = tape.chance(1, 2, "pre.agents")
+    parallel = tape.chance(1, 4, "pre.parallel")
+    steps = dA + 3 * (dB + 1) + 5
+    fires = [False] * (steps + 2)
+    for _ in range(tape.intrange(1, 2, "pre.nfires")):
+        fires[tape.intrange(0, dA + 1, "pre.fire")] = True
+    return {"family": "compose_preempt", "dA": dA, "dB": dB, "handler": handler, "agents": agents,
+            "parallel": parallel, "max_steps": steps, "fires": "".join("1" if b else "0" for b in fires)}
+
+
+def _preempt_source(c):
+    L = ["from simverif.userlib import tab, ev, Tok"]
+    if c["agents"]:
+        L += ["behavior Act(n):", "    while True:", "        take Tok(n)"]
+    for name, d in (("SubA", c["dA"]), ("SubB", c["dB"]), ("SubC", 1)):
+        L += [f"scenario {name}():"]
+        if c["agents"] and name != "SubC":
+            x = {"SubA": 10, "SubB": 20}[name]
+            L += ["    setup:", f"        o{name} = new Object at ({x}, 0, 0), with name 'o{name}', with behavior Act('{name}')"]
+        L += ["    compose:", f"        ev('{name}.start')"]
+        L += ["        wait"] * d
+        L += [f"        ev('{name}.end')"]
+    L += ["scenario Main():", "    setup:", "        ego = new Object at (0, 0, 0), with name 'ego'", "    compose:", "        try:"]
+    L += ["            do SubA(), SubC()" if c["parallel"] else "            do SubA()", "            ev('body.after')"]
+    L += ["        interrupt when tab(0):"]
+    if c["handler"] == "do":
+        L += ["            do SubB()"]
+    elif c["handler"] == "dofor":
+        L += [f"            do SubB() for {c['dB']} steps"]
+    else:
+        L += ["            wait"] * c["dB"]
+    L += ["            ev('handler.end')", "        ev('after-try')", "        wait"]
+    return "\n".join(L) + "\n"
+
+
+def run_preempt_case(c):
+    import hashlib
+    import json
+
+    from .. import dynrun
+
+    src = _preempt_source(c)
+    dynrun.sanitize()
+    scenario = dynrun.compile_prog(src, top="Main")
+    tables = {0: [ch == "1" for ch in c["fires"]]}
+    nobj = 3 if c["agents"] else 1
+    schedule = [[0] * nobj for _ in range(c["max_steps"] + 1)]
+    impl = dynrun.run_impl(scenario, tables, schedule, c["max_steps"], "1", seed=0)
+    log = [list(x) for x in dynrun.norm_log(impl["log"])]
+    evs = [lab for _, kind, lab in log if kind == "ev"]
+    stats = {"programs": 1, "env_runs": 1, "family:compose_preempt": 1, "result:" + impl["kind"]: 1}
+    violations = []
+    fired_during_A = False
+    if "handler.end" in evs and "SubA.start" in evs:
+        i = evs.index("handler.end")
+        fired_during_A = "SubA.end" not in evs[:i]
+    if fired_during_A:
+        stats["probe:handler_preempted_running_sub_scenario"] = 1
+    problem = None
+    if impl["kind"] != "ok":
+        problem = {"what": "simulation did not complete", "outcome": {k: v for k, v in impl.items() if k in ("kind", "exc", "msg", "where", "time")}}
+    else:
+        def pos(lab):
+            return evs.index(lab) if lab in evs else None
+        a_end, after_do, after_try = pos("SubA.end"), pos("body.after"), pos("after-try")
+        if after_try is None or after_do is None:
+            problem = {"what": "the compose block never reached the statement after the try-interrupt within the step budget"}
+        elif a_end is None or not (a_end < after_do < after_try):
+            problem = {"what": "the statement after `do SubA()` ran although SubA's compose block had not finished"
+                       if a_end is None or a_end > after_do else "statement order"}
+    if problem:
+        key = None
+        if c["handler"] in ("do", "dofor") and fired_during_A:
+            key = "compose-preempted-do-not-resumed"
+        problem.update(events=evs, finding=key, program=src, fires=c["fires"])
+        violations.append({"clause": "compose-preempted-do-not-resumed", "detail": problem})
+    dynrun.sanitize()
+    dig = hashlib.blake2b(json.dumps([c, impl["kind"], log], sort_keys=True, default=repr).encode(), digest_size=8).hexdigest()
+    return {
+        "violations": violations, "digest": dig, "key": dig, "nontrivial": impl.get("time", 0) >= 2,
+        "stats": stats, "steps": impl.get("time", 0), "simsec": float(impl.get("time", 0)),
+        "sample": {"program": src, "fires": c["fires"], "max_steps": c["max_steps"], "impl": {k: v for k, v in impl.items() if k in ("kind", "time", "termtype", "exc", "msg")}, "impl_log": log[:200]},
+        "case": c,
+    }
+
+
+def run_compose_preempt(tape):
+    return run_preempt_case(_preempt_case(tape))
+
+
 def run_case(case):
+    if case.get("family") == "compose_preempt":
+        return run_preempt_case(case)
     return dyncommon.run_dyn_case(case, BUG_MODELS)
 
 
-shrink_case = dyncommon.shrink_case
+def shrink_case(case, still_fails, **kw):
+    if case.get("family") == "compose_preempt":
+        return case, 0  # six small integers: the tape stage already minimised them
+    return dyncommon.shrink_case(case, still_fails, **kw)
